@@ -186,13 +186,14 @@ open MythVerif.Wsq (Elem Pid Holder)
 
    Proved below, for every capacity, any number of thieves and every interleaving of program steps
    and store-buffer drains: the machine of `Model/WsQueueTso.lean`, i.e. owner `push` (without
-   re-centring: a push at `top == size` stops) and `pop` – fast path, locked slow path, reset path –
-   against `myth_queue_take` of any number of thieves.  Not covered: trypass / put (base-side
-   insertion), peek, the wsapi variants, the steal cache, re-centring, clear.  Modelling
-   simplification (DESIGN A.3): the releasing store of unlock is performed on memory right after its
-   fence. -/
+   re-centring: a push at `top == size` stops), `pop` – fast path, locked slow path, reset path – and
+   `put` (base-side insertion under the lock, without re-centring: a put at `base == 0` stops, still
+   holding the lock; it linearizes when its `base` store drains) against `myth_queue_take` of any
+   number of thieves.  Not covered: trypass, peek, the wsapi variants, the steal cache,
+   re-centring, clear.  Modelling simplification (DESIGN A.3): the releasing store of unlock is
+   performed on memory right after its fence. -/
 
-/-- **No loss, no duplication under x86-TSO store buffering (partial: push / pop / take).**
+/-- **No loss, no duplication under x86-TSO store buffering (partial: push / pop / put / take).**
 In every reachable state of the store-buffer machine with the fences of the source, for every
 capacity and any number of thieves: the TSO invariant holds (buffer shapes, memory-side window
 `[lb, mem.top)` = prefix of `A`, `mem.base = lb (+1 while a thief's increment is visible)`), every
@@ -225,5 +226,49 @@ def exTso : List Lbl :=
 example : (runs step (init FenceCfg.code 8) exTso).map
     (fun s => (s.retd, s.A, s.top, s.base, s.bufO)) = some ([3, 1], [2], 6, 5, []) := by decide
 example : (runs step (init FenceCfg.code 8) exTso).map (fun s => decide s.ins.Nodup) = some true := by decide
+
+/-! a thief's take races an owner put for the slot at `base`: the owner (capacity 8, element 1 pushed
+    and drained) runs `put 2` up to its unlock with the slot store and the `base` store still
+    buffered; thief 0 passes its quick check on the stale `base` and spins on the lock; the two
+    stores drain (the second drain is put's linearization point), the owner unlocks, the thief
+    takes 2 – the element put at the base side – and 1 stays in the deque -/
+open Lbl in
+def exPutRacePre : List Lbl :=
+  [oPush 1, o, o, o, o, flushO, flushO,
+   oPut 2, o, o, o, o, o,
+   tTake 0, t 0, t 0, t 0]
+
+open Lbl in
+def exPutRace : List Lbl :=
+  exPutRacePre ++
+  [flushO, flushO, o,
+   t 0, t 0, flushT 0, t 0, t 0, t 0, t 0]
+
+/-- the racing state: both stores buffered, nothing inserted yet, the thief at the lock -/
+example : (runs step (init FenceCfg.code 8) exPutRacePre).map
+    (fun s => (s.opc, s.tpc 0, s.bufO, s.base, s.lb)) =
+    some (.pt9, .tkl, [.ptr 3 (some 2), .baseI 3 2], 4, 4) := by decide
+example : (runs step (init FenceCfg.code 8) exPutRacePre).map (fun s => (s.A, s.ins, s.lock)) =
+    some ([1], [1], .owner) := by decide
+example : (runs step (init FenceCfg.code 8) exPutRace).map
+    (fun s => (s.retd, s.A, s.top, s.base, s.bufO)) = some ([2], [1], 5, 4, []) := by decide
+example : (runs step (init FenceCfg.code 8) exPutRace).map (fun s => (s.lock, s.ins, s.lb)) =
+    some (.free, [2, 1], 4) := by decide
+
+open Lbl in
+/-- put on an empty deque, then pop returns the element through the locked slow path -/
+def exPutPop : List Lbl :=
+  [oPut 5, o, o, o, o, o, flushO, flushO, o,
+   oPop, o, o, flushO, o, o, o, o, o, o, flushO, o]
+
+example : (runs step (init FenceCfg.code 8) exPutPop).map
+    (fun s => (s.retd, s.A, s.top, s.base, s.bufO)) = some ([5], [], 3, 3, []) := by decide
+example : (runs step (init FenceCfg.code 8) exPutPop).map (fun s => (s.opc, s.ins)) =
+    some (.idle, [5]) := by decide
+
+open Lbl in
+/-- a put at `base == 0` stops (re-centring is outside the model), holding the lock -/
+example : (runs step (init FenceCfg.code 1) [oPut 1, o, o]).map (fun s => (s.opc, s.lock)) =
+    some (.stuckL, .owner) := by decide
 
 end MythVerif.WsqTso
